@@ -87,7 +87,10 @@ CHECKS = [
         "resolve_from_ldd_output is under contract with loop invariants: normal return only when every request was resolved, "
         "SystemExit otherwise; sanitize_shlib_path returns the base name.",
         "Trusted: givc and its regex translation, re engine = regular-language semantics, re.escape, str.split/splitlines, "
-        "os.path functions. First-match order and libtool archives are not yet under contract.", "DESIGN.md section 4 C19",
+        "os.path functions. Also under contract: extract_libtool_shlib. First-match order is not yet under contract. If the pattern "
+        "uses a construct the translator does not know (e.g. \\b), the check falls back to a BOUNDED comparison of the real "
+        "compiled pattern with the specification over a finite family of names and words (labelled bounded, never proved).",
+        "DESIGN.md section 4 C19",
         technique="deductive verification: VC generator on the real functions + regular-language lemmas on the extracted pattern (z3/cvc5)"),
     chk("C05", "Contracts on the real introspectable-pass functions: local closure of every analysis function, monotonicity, "
         "frame, skip propagation, and range/first-match contracts of the index lookups; loops by invariants with a ghost index.",
@@ -132,14 +135,19 @@ CHECKS = [
         "equation at append). NOT under contract: the line state machine parse_comment_block and its 15 regular expressions "
         "(identifier, parameters, tags, description paragraphs, continuation lines, line endings), the comment writer and the "
         "write/parse round trip; relation between the returned options of the option parsers and the stored annotation value is by "
-        "call discipline only.", "DESIGN.md section 4 C10"),
+        "call discipline only. BOUNDED stand-in (never counted as proved) for the state machine, which is outside the verifier's "
+        "reach: contracts/extra/c10_layouts.py runs the real parser and writer on an exhaustively enumerated family of 144 block "
+        "contents x 4 layouts (inline, annotations continued on following lines, indented asterisks, CR LF) and compares each "
+        "with the expected content, the layouts with each other and write-then-parse with the block.", "DESIGN.md section 4 C10"),
     chk("C13", "Contract on the real Transformer._create_const: typing clauses and the unsigned-wrap range clause are "
         "integer/string VCs discharged for all symbols; counter-models are replayed natively.",
         "Trusted: givc, schema, assumed contracts for _create_type_from_base/_resolve_type_from_ctype/lookup_giname/"
         "resolve_aliases, str(int) as injective UF. Also under contract: Transformer._create_enum (one member per public "
         "enumerator in declaration order, name = identifier without the common prefix - else without the namespace prefix - "
-        "lower-cased, value and C identifier kept, bitfield for flags) with _enum_common_prefix, strip_identifier and the "
-        "enumerator list (child_list) by assumed contract, and the emission of constants, members and the <enumeration> / <bitfield> "
+        "lower-cased, value and C identifier kept, bitfield for flags) with strip_identifier and the enumerator list (child_list) by "
+        "assumed contract; Transformer._enum_common_prefix verified against its body (the result is the fold of the word-wise "
+        "common prefix over ALL enumerators, private ones included, None when it is empty or has no underscore; the nested closure "
+        "common_prefix by its own contract, common_word_prefix as the specification function); and the emission of constants, members and the <enumeration> / <bitfield> "
         "elements (name, c:type, registered type, error domain, one <member> per member in declaration order). "
         "One known finding (platform-width unsigned types are not wrapped).", "DESIGN.md section 4 C13"),
     chk("C04", "Contracts on the real prefix matcher Transformer._split_c_string_for_namespace_matches (three loops, inner break, "
@@ -169,10 +177,17 @@ CHECKS = [
         "nothing else changes) and on _pass3_callable_callbacks: destroy name, scope, transfer and closure name of every "
         "parameter equal left folds over the parameter list (a destroy notify marks the most recent plain callback before it "
         "notified / transfer none / destroy = its name, an untyped `...data` pointer becomes its closure, well-known callback "
-        "types get async scope) and a parameter named as a closure becomes nullable unless (not nullable).",
+        "types get async scope) and a parameter named as a closure becomes nullable unless (not nullable). C type spellings: "
+        "_canonicalize_ctype (a table spelling maps to its fundamental type, an unknown non-pointer is kept, a pointer is the "
+        "canonical pointee plus one star - one level per step, so char** is utf8*) and create_type_from_ctype_string (original "
+        "spelling kept as c:type, _Bool/bool are gboolean, a returned char** and GStrv are arrays of utf8, table types become "
+        "their fundamental, unknown ones stay unresolved) are proved for whatever the real dictionary ast.type_names contains; "
+        "that the dictionary holds the documented entries (int=gint, char*=utf8, stdint aliases ...) is a finite evaluation "
+        "of 40 constants (contracts/extra/c02_type_table.py, complete for that list, reported under bounded).",
         "Trusted: givc VC generator, class schema, Transformer lookups (lookup_typenode, resolve_aliases) as uninterpreted "
         "functions, parameters pairwise distinct objects (precondition, instantiated at every pair of read positions). The C type "
-        "table / canonicalisation (create_type_from_ctype_string, _canonicalize_ctype) and _create_callback are not under contract.",
+        "table as the real dictionary read at verification time; _create_bare_container_type (GList / GHashTable ... by name) by assumed "
+        "contract; str.rstrip/strip with a character set as uninterpreted functions. _create_callback is not under contract.",
         "DESIGN.md section 4 C02"),
 ]
 
